@@ -62,6 +62,13 @@ const std::set<ApplyRule::Ptr>& ApplyRule::GetTargetedServiceRules(const Type::P
  */
 bool ApplyRule::AddTargetedRule(const ApplyRule::Ptr& rule, const String& targetType, ApplyRule::PerSourceType& rules)
 {
+	/* A rule with `for` evaluates its for-term (which may fail) and sets its loop variables (which may shadow
+	 * host/service) on every object before the filter is evaluated. Only without `for` is looking up the named
+	 * objects the same as evaluating the filter on all objects. */
+	if (rule->GetFTerm()) {
+		return false;
+	}
+
 	if (targetType == "Host") {
 		std::vector<const String *> hosts;
 
